@@ -38,7 +38,7 @@ pub fn apply_gamma(samples: &mut [f32], gamma: f32) {
         if std::arch::is_x86_feature_detected!("avx2") && std::arch::is_x86_feature_detected!("fma")
         {
             unsafe { linear_to_gamma_x86_64_avx2(samples, gamma) }
-        } else {
+        } else if std::arch::is_x86_feature_detected!("sse4.1") {
             let mut it = samples.chunks_exact_mut(4);
             for chunk in &mut it {
                 unsafe {
@@ -54,6 +54,8 @@ pub fn apply_gamma(samples: &mut [f32], gamma: f32) {
                 }
             }
             it.into_remainder()
+        } else {
+            samples
         }
     };
 
